@@ -96,6 +96,11 @@ def _expand_atoms(fn, cond, sense, out, depth=0):
     if n.get('k') == 'unop' and n.get('op') == '!':
         _expand_atoms(fn, n['sub'], not sense, out, depth + 1)
         return
+    if n.get('k') == 'var' and n.get('vk') == 'local':
+        init = single_init(fn, n['d'], pure=False)        # named condition: `const bool at_end = (p == end);`
+        if init is not None:
+            _expand_atoms(fn, init, sense, out, depth + 1)
+            return
     out.append((c, sense))
 
 
@@ -376,6 +381,15 @@ def reaches_unchecked(fn, starts, targets, pass_edges, barriers=()):
     return None
 
 
+_NORETURN = ('__assert_fail', 'abort', 'std::abort', 'std::terminate', '__builtin_unreachable', '__assert_rtn')
+
+
+def ends_path(fn, e):
+    """element after which control does not continue normally: throw, or a call that does not return (failed assert)"""
+    n = fn.nodes.get(e, {}) if not isinstance(e, tuple) else {}
+    return n.get('k') == 'throw' or (n.get('k') == 'call' and (n.get('q') or n.get('name') or '') in _NORETURN)
+
+
 def helper_barriers(fb, fn, subj, make_classifier, depth=0):
     """Calls in fn that hand a value rooted in `subj` to a helper which establishes the fact itself: in the helper, no
     path from the entry to a normal exit avoids the pass edges of make_classifier(<that parameter>) (or a nested helper
@@ -411,14 +425,14 @@ def helper_barriers(fb, fn, subj, make_classifier, depth=0):
             def edge_ok(b, idx, s2, pe=pe):
                 return (b, idx) not in pe
             w = path_search(g, g.entry, lambda e: isinstance(e, tuple) and e[0] == 'exit',
-                            lambda e, g=g, inner=inner: g.nodes.get(e, {}).get('k') == 'throw' or e in inner, edge_ok, from_block_start=True)
+                            lambda e, g=g, inner=inner: ends_path(g, e) or e in inner, edge_ok, from_block_start=True)
             if w is None:
                 out.append(c['id'])
                 break
     return out
 
 
-def guarded(fb, fn, starts, targets, subj, make_classifiers, extra_pass=(), extra_barriers=()):
+def guarded(fb, fn, starts, targets, subj, make_classifiers, extra_pass=(), extra_barriers=(), strict_targets=False):
     """The GUARD decision with every equivalent placement of the test accepted: inline branch, short-circuit operand,
     negated / joined condition, named bool, switch case, checking helper (nested).  make_classifiers: one factory or a list
     of factories `is_subject -> classifier` whose pass edges are united.  Returns a witness path or None."""
@@ -429,6 +443,9 @@ def guarded(fb, fn, starts, targets, subj, make_classifiers, extra_pass=(), extr
     for mk in make_classifiers:
         pe |= classify_edges(fn, mk(rooted_in(subj)))
         bars += helper_barriers(fb, fn, subj, mk)
+    if strict_targets:
+        # the targets are calls known to contain the unprotected operation: a test inside them comes too late
+        bars = [b for b in bars if b not in set(targets)]
     barset = set(bars)
     tg = [t for t in targets if t not in barset]
     if not tg:
@@ -481,7 +498,7 @@ def guarded_ip(fb, fn, starts, targets, subj, make_classifiers, depth=0, **kw):
         st = []
         for r in sub2:
             st += starts_for(g, r[1])
-        r2 = guarded_ip(fb, g, st, [c['id']], sub2, make_classifiers, depth + 1)
+        r2 = guarded_ip(fb, g, st, [c['id']], sub2, make_classifiers, depth + 1, strict_targets=True)
         if r2 is not None:
             return r2
     return None
@@ -618,6 +635,8 @@ class CursorFlow:
                     if v['tC'] in _PTR_T:
                         self.cursors[v['d']] = ('p', v['name'], None)
         self.pre = set()
+        self.post = set()           # indexes of const char** parameters whose cursor is CHECKED at every normal exit
+        self.chk = set()            # (i, j): by-value pointer parameter i is compared against pointer parameter j on every normal exit
         self.events = []            # (cursor decl, node id, level at the dereference, what)
         self.ret_ok = None
         self._pm = fn.parent_map()
@@ -749,12 +768,19 @@ class CursorFlow:
                         if record:
                             self._deref(pc, n['id'], st, 'call of %s (dereferences it before any test)' % n.get('q'))
                     changed = changed or dict(st)
-                    changed[pc] = UNCHECKED
+                    changed[pc] = CHECKED if (summ is not None and i in summ.get('post', ())) else UNCHECKED
                     continue
                 c = self.cursor_of(a)
                 if c is not None and summ is not None and i in summ.get('pre', ()):
                     if record:
                         self._deref(c, n['id'], st, 'call of %s (dereferences it before any test)' % n.get('q'))
+                if c is not None and summ is not None:
+                    # a checking helper: `expect_more(data, end)` compares its two pointer parameters and throws
+                    args = n.get('args', []) or []
+                    for (pi, pj) in summ.get('chk', ()):
+                        if pi == i and pj < len(args) and args[pj] is not None and self.cursor_of(args[pj]) is None:
+                            changed = changed or dict(st)
+                            changed[c] = CHECKED
             if changed is not None:
                 return changed
         return st
@@ -791,58 +817,176 @@ class CursorFlow:
                 out.append((cur, idx))
         return out
 
+    # -- boolean flags (loop forms with a flag: `do { ...; more = ...; if (more) check; } while (more);`)
+    def _bool_locals(self):
+        out = set()
+        for n in self.fn.all_nodes():
+            if n.get('k') == 'decl':
+                for v in n['vars']:
+                    if v['tC'] in ('bool', 'const bool'):
+                        out.add(v['d'])
+        return out
+
+    def _flag_transfer(self, st, n):
+        """forget / learn the value of a bool local when it is written"""
+        fn = self.fn
+        k = n.get('k')
+        tgt = None
+        val = None
+        if k == 'assign':
+            l = fn.sn(n['lhs'])
+            if l is not None and l.get('k') == 'var' and l.get('d') in self._flags:
+                tgt = l['d']
+                val = fn.const_value(n['rhs']) if n.get('op') == '=' else None
+        elif k == 'decl':
+            for v in n['vars']:
+                if v['d'] in self._flags:
+                    tgt = v['d']
+                    val = fn.const_value(v['init']) if isinstance(v.get('init'), int) else None
+        if tgt is None:
+            return st
+        st2 = dict(st)
+        if val is None:
+            st2.pop(('flag', tgt), None)
+        else:
+            st2[('flag', tgt)] = bool(val)
+        return st2
+
+    def _flag_edges(self, blk):
+        """[(bool local, value, successor index)] learnt on the edges of a branch on a plain flag"""
+        fn = self.fn
+        out = []
+        if 'cond' not in blk or len(blk['succs']) != 2 or blk.get('termcls') == 'SwitchStmt':
+            return out
+        conds = [blk['cond']]
+        e = effective_cond(fn, blk)
+        if e is not None and fn.strip(e) != fn.strip(blk['cond']):
+            conds.append(e)
+        for c in conds:
+            for idx, sense in ((0, True), (1, False)):
+                x, pol = strip_not(fn, c)
+                n = fn.nodes.get(x)
+                if n is not None and n.get('k') == 'var' and n.get('d') in self._flags:
+                    out.append((n['d'], sense == pol, idx))
+        return out
+
+    @staticmethod
+    def _canon(st):
+        return tuple(sorted(st.items(), key=repr))
+
     def run(self):
         fn = self.fn
+        self._flags = self._bool_locals()
         init = {}
         for d, (kind, name, pidx) in self.cursors.items():
             init[d] = ENTRY if pidx is not None else UNCHECKED
-        IN = {fn.entry: init}
+        # path-sensitive in the flags only: a block holds a small set of states; states that agree are one
+        IN = {fn.entry: {self._canon(init): init}}
+        OUT = {}
         work = [fn.entry]
         for b in fn.catch_entry_blocks():
-            IN[b] = {d: UNCHECKED for d in self.cursors}
+            st0 = {d: UNCHECKED for d in self.cursors}
+            IN[b] = {self._canon(st0): st0}
             work.append(b)
         guard = 0
-        while work and guard < 20000:
+        while work and guard < 40000:
             guard += 1
             b = work.pop()
-            st = IN[b]
             blk = fn.blocks[b]
-            for e in blk['elems']:
-                st = self.transfer(st, fn.nodes[e], False)
             efs = self.edge_facts(blk)
+            fes = self._flag_edges(blk)
+            outs = []
+            for st in list(IN[b].values()):
+                for e in blk['elems']:
+                    n = fn.nodes[e]
+                    st = self.transfer(st, n, False)
+                    if self._flags:
+                        st = self._flag_transfer(st, n)
+                outs.append(st)
+            OUT[b] = outs
             for idx, s in enumerate(blk['succs']):
                 if s is None:
                     continue
-                out = st
-                for (cur, eidx) in efs:
-                    if eidx == idx:
-                        if out is st:
-                            out = dict(st)
-                        out[cur] = CHECKED
-                old = IN.get(s)
-                if old is None:
-                    IN[s] = dict(out)
-                    work.append(s)
-                else:
-                    new = {d: min(old.get(d, UNCHECKED), out.get(d, UNCHECKED)) for d in self.cursors}
-                    if new != old:
-                        IN[s] = new
+                for st in outs:
+                    if any(eidx == idx and st.get(('flag', d)) is not None and st[('flag', d)] != val for (d, val, eidx) in fes):
+                        continue        # this state cannot take this edge
+                    out = st
+                    for (cur, eidx) in efs:
+                        if eidx == idx:
+                            if out is st:
+                                out = dict(st)
+                            out[cur] = CHECKED
+                    for (d, val, eidx) in fes:
+                        if eidx == idx:
+                            if out is st:
+                                out = dict(st)
+                            out[('flag', d)] = val
+                    cur_in = IN.setdefault(s, {})
+                    key = self._canon(out)
+                    if key in cur_in:
+                        continue
+                    cur_in[key] = dict(out)
+                    if len(cur_in) > 12:
+                        # too many distinct states: fall back to the plain meet (sound, less precise)
+                        sts = list(cur_in.values())
+                        m = {d: min(x.get(d, UNCHECKED) for x in sts) for d in self.cursors}
+                        cur_in.clear()
+                        cur_in[self._canon(m)] = m
+                    if s not in work:
                         work.append(s)
         # recording pass
         self.events = []
         self.pre = set()
         rets_ok = True
         n_ret = 0
-        for b, st in IN.items():
+        for b, sts in IN.items():
             blk = fn.blocks[b]
-            for e in blk['elems']:
-                n = fn.nodes[e]
-                if n.get('k') == 'return' and 'sub' in n:
-                    n_ret += 1
-                    if not self._ret_checked(n['sub'], st):
-                        rets_ok = False
-                st = self.transfer(st, n, True)
+            for st in sts.values():
+                for e in blk['elems']:
+                    n = fn.nodes[e]
+                    if n.get('k') == 'return' and 'sub' in n:
+                        n_ret += 1
+                        if not self._ret_checked(n['sub'], st):
+                            rets_ok = False
+                    st = self.transfer(st, n, True)
+                    if self._flags:
+                        st = self._flag_transfer(st, n)
         self.ret_ok = rets_ok and n_ret > 0
+        # state of const char** parameters at the normal exits
+        normal = [b for b in OUT if fn.exit in fn.succs(b) and not any(ends_path(fn, e) for e in fn.blocks[b]['elems'])]
+        for d, (kind, name, pidx) in self.cursors.items():
+            if kind == 'pp' and pidx is not None and normal and all(st.get(d, UNCHECKED) == CHECKED for b in normal for st in OUT[b]):
+                self.post.add(pidx)
+        # by-value pointer parameters that are only compared (checking helper)
+        ptrs = [(i, p) for i, p in enumerate(fn.params) if p['tC'] in _PTR_T and p['d'] not in self.cursors]
+        for (i, pi) in ptrs:
+            for (j, pj) in ptrs:
+                if i == j:
+                    continue
+
+                def classify(f, cid, pi=pi, pj=pj):
+                    p = cmp_parts(f, cid)
+                    if p is None:
+                        return None
+                    op, l, r = p
+                    ln, rn = f.sn(l), f.sn(r)
+                    if ln is None or rn is None or ln.get('k') != 'var' or rn.get('k') != 'var':
+                        return None
+                    if ln.get('d') == pi['d'] and rn.get('d') == pj['d']:
+                        pass
+                    elif ln.get('d') == pj['d'] and rn.get('d') == pi['d']:
+                        op = _FLIP[op]
+                    else:
+                        return None
+                    return {'!=': 'T', '<': 'T', '==': 'F', '>=': 'F'}.get(op)
+                pe = classify_edges(fn, classify)
+                if not pe:
+                    continue
+                w = path_search(fn, fn.entry, lambda e: isinstance(e, tuple) and e[0] == 'exit',
+                                lambda e: ends_path(fn, e), lambda b, idx, s2, pe=pe: (b, idx) not in pe,
+                                from_block_start=True)
+                if w is None:
+                    self.chk.add((i, j))
         return self
 
     def _ret_checked(self, nid, st):
